@@ -20,4 +20,227 @@ theorem runString_loaded_pc (eng : Engine E) (w : W E) (pc' : PerCall) (input : 
 theorem runOps_append (eng : Engine E) (w : W E) (a b : List Op) : runOps eng w (a ++ b) = runOps eng (runOps eng w a) b := by
   simp [runOps, List.foldl_append]
 
+
+
+/-- an equivalence-like relation on engine states that no operation can tell apart -/
+structure Respects (eng : Engine E) (R : E → E → Prop) : Prop where
+  readDb : ∀ e1 e2 db, R e1 e2 → R (eng.readDb e1 db).1 (eng.readDb e2 db).1 ∧ (eng.readDb e1 db).2 = (eng.readDb e2 db).2
+  run : ∀ e1 e2 env s, R e1 e2 → R (eng.run e1 env s).1 (eng.run e2 env s).1 ∧ (eng.run e1 env s).2 = (eng.run e2 env s).2
+  unload : ∀ e1 e2, R e1 e2 → R (eng.unload e1) (eng.unload e2)
+  testInput : ∀ e1 e2, R e1 e2 → eng.testInput e1 = eng.testInput e2
+  components : ∀ e1 e2, R e1 e2 → eng.components e1 = eng.components e2
+
+/-- unload reaches the fresh engine up to R -/
+def EngineResetUpTo (eng : Engine E) (R : E → E → Prop) : Prop := ∀ e, R (eng.unload e) eng.fresh
+
+/-- two instances that agree on every wrapper member and whose engines are related -/
+def Rel (R : E → E → Prop) (w1 w2 : W E) : Prop :=
+  w1.id = w2.id ∧ w1.sw = w2.sw ∧ w1.names = w2.names ∧ w1.c = w2.c ∧ w1.pc = w2.pc ∧ R w1.engine w2.engine
+
+theorem runCore_rel (eng : Engine E) (R : E → E → Prop) (hR : Respects eng R) (w1 w2 : W E) (s : String)
+    (h : Rel R w1 w2) : Rel R (runCore eng w1 s).1 (runCore eng w2 s).1 ∧ (runCore eng w1 s).2 = (runCore eng w2 s).2 := by
+  obtain ⟨hid, hsw, hn, hc, hpc, he⟩ := h
+  have henv : runEnv w1 = runEnv w2 := by simp [runEnv, hid, hsw, hn, hc]
+  have hr := hR.run w1.engine w2.engine (runEnv w2) s he
+  unfold runCore
+  rw [henv, hc]
+  by_cases hl : w2.c.dbLoaded = true
+  · simp only [hl, Bool.not_true, Bool.false_eq_true, ↓reduceIte]
+    rw [hr.2]
+    exact ⟨⟨hid, hsw, by simp [hn], rfl, rfl, hr.1⟩, rfl⟩
+  · simp only [hl, Bool.not_false, ↓reduceIte, Bool.not_eq_true] 
+    simp at hl
+    simp [hl, Rel, hid, hsw, hn, he]
+
+theorem runString_rel (eng : Engine E) (R : E → E → Prop) (hR : Respects eng R) (w1 w2 : W E) (s : String)
+    (h : Rel R w1 w2) : Rel R (runString eng w1 s).1 (runString eng w2 s).1 ∧ (runString eng w1 s).2 = (runString eng w2 s).2 := by
+  unfold runString
+  apply runCore_rel eng R hR
+  obtain ⟨hid, hsw, hn, hc, hpc, he⟩ := h
+  exact ⟨hid, hsw, hn, by simp [hc], hpc, he⟩
+
+theorem runAccumulated_rel (eng : Engine E) (R : E → E → Prop) (hR : Respects eng R) (w1 w2 : W E)
+    (h : Rel R w1 w2) : Rel R (runAccumulated eng w1).1 (runAccumulated eng w2).1 ∧ (runAccumulated eng w1).2 = (runAccumulated eng w2).2 := by
+  unfold runAccumulated
+  have hc : w1.c = w2.c := h.2.2.2.1
+  have := runCore_rel eng R hR w1 w2 w2.c.accumulated h
+  rw [hc]
+  obtain ⟨⟨hid, hsw, hn, hc', hpc, he⟩, hres⟩ := this
+  exact ⟨⟨hid, hsw, hn, by simp [hc'], hpc, he⟩, hres⟩
+
+/-- LoadDatabase decomposed: hold three file switches off, load_db, test_db when the read succeeded, restore the switches -/
+def holdOff (w : W E) : W E := { w with sw := { w.sw with errFile := false, outFile := false, logFile := false } }
+def restore (w : W E) (saved : Switches) : W E :=
+  { w with sw := { w.sw with errFile := saved.errFile, outFile := saved.outFile, logFile := saved.logFile } }
+def loadTail (eng : Engine E) (r : W E × Nat) : W E × Nat :=
+  if r.2 == 0 then runString eng r.1 (eng.testInput r.1.engine) else r
+
+theorem load_unfold (eng : Engine E) (w : W E) (db : String) :
+    load eng w db = (restore (loadTail eng (loadDb eng (holdOff w) db)).1 w.sw, (loadTail eng (loadDb eng (holdOff w) db)).2) := by
+  unfold load loadTail holdOff restore
+  by_cases h : ((loadDb eng { w with sw := { w.sw with errFile := false, outFile := false, logFile := false } } db).2 == 0) = true
+  · simp [h]
+  · simp [h]
+
+theorem holdOff_rel (R : E → E → Prop) (w1 w2 : W E) (h : Rel R w1 w2) : Rel R (holdOff w1) (holdOff w2) := by
+  obtain ⟨hid, hsw, hn, hc, hpc, he⟩ := h
+  exact ⟨hid, by simp [holdOff, hsw], hn, hc, hpc, he⟩
+
+theorem restore_rel (R : E → E → Prop) (w1 w2 : W E) (s : Switches) (h : Rel R w1 w2) : Rel R (restore w1 s) (restore w2 s) := by
+  obtain ⟨hid, hsw, hn, hc, hpc, he⟩ := h
+  exact ⟨hid, by simp [restore, hsw], hn, hc, hpc, he⟩
+
+theorem loadDb_rel (eng : Engine E) (R : E → E → Prop) (hR : Respects eng R) (w1 w2 : W E) (db : String)
+    (h : Rel R w1 w2) : Rel R (loadDb eng w1 db).1 (loadDb eng w2 db).1 ∧ (loadDb eng w1 db).2 = (loadDb eng w2 db).2 := by
+  obtain ⟨hid, hsw, hn, hc, hpc, he⟩ := h
+  have hd := hR.readDb _ _ db (hR.unload _ _ he)
+  simp only [loadDb, unloadDatabase]
+  exact ⟨⟨hid, hsw, hn, by simp [hd.2], hpc, hd.1⟩, hd.2⟩
+
+theorem loadTail_rel (eng : Engine E) (R : E → E → Prop) (hR : Respects eng R) (r1 r2 : W E × Nat)
+    (h : Rel R r1.1 r2.1) (hn : r1.2 = r2.2) :
+    Rel R (loadTail eng r1).1 (loadTail eng r2).1 ∧ (loadTail eng r1).2 = (loadTail eng r2).2 := by
+  unfold loadTail
+  rw [hn, hR.testInput _ _ h.2.2.2.2.2]
+  by_cases hz : (r2.2 == 0) = true
+  · simp only [hz, ↓reduceIte]; exact runString_rel eng R hR _ _ _ h
+  · simp only [hz, Bool.false_eq_true, ↓reduceIte]; exact ⟨h, hn⟩
+
+theorem load_rel (eng : Engine E) (R : E → E → Prop) (hR : Respects eng R) (w1 w2 : W E) (db : String)
+    (h : Rel R w1 w2) : Rel R (load eng w1 db).1 (load eng w2 db).1 ∧ (load eng w1 db).2 = (load eng w2 db).2 := by
+  rw [load_unfold, load_unfold]
+  have h1 := loadDb_rel eng R hR _ _ db (holdOff_rel R _ _ h)
+  have h2 := loadTail_rel eng R hR _ _ h1.1 h1.2
+  have hsw : w1.sw = w2.sw := h.2.1
+  rw [hsw]
+  exact ⟨restore_rel R _ _ _ h2.1, h2.2⟩
+
+theorem step_rel (eng : Engine E) (R : E → E → Prop) (hR : Respects eng R) (w1 w2 : W E) (op : Op)
+    (h : Rel R w1 w2) : Rel R (step eng w1 op) (step eng w2 op) ∧ result eng w1 op = result eng w2 op := by
+  have h' := h
+  obtain ⟨hid, hsw, hn, hc, hpc, he⟩ := h
+  cases op with
+  | setSwitch k b => exact ⟨⟨hid, by simp [step, hsw], hn, hc, hpc, he⟩, rfl⟩
+  | setName k v => exact ⟨⟨hid, hsw, by simp [step, hn], hc, hpc, he⟩, rfl⟩
+  | setSelName v =>
+      refine ⟨?_, rfl⟩
+      by_cases hv : v = ""
+      · simp only [step, hv, ↓reduceIte]; exact h'
+      · simp only [step, hv, ↓reduceIte]; exact ⟨hid, hsw, by simp [hn, hc], hc, hpc, he⟩
+  | setCur n =>
+      refine ⟨?_, rfl⟩
+      by_cases hv : 0 ≤ n
+      · simp only [step, hv, ↓reduceIte]; exact ⟨hid, hsw, hn, by simp [hc], hpc, he⟩
+      · simp only [step, hv, ↓reduceIte]; exact h'
+  | setSelFileOn b =>
+      refine ⟨?_, rfl⟩
+      simp only [step, hc]
+      by_cases hv : 0 ≤ w2.c.curSel
+      · simp only [hv, ↓reduceIte]; exact ⟨hid, hsw, hn, by simp [hc], hpc, he⟩
+      · simp only [hv, ↓reduceIte]; exact h'
+  | setSelStrOn b => exact ⟨⟨hid, hsw, hn, by simp [step, hc], hpc, he⟩, rfl⟩
+  | accumulate l => exact ⟨⟨hid, hsw, hn, by simp [step, accumulate, hc], hpc, he⟩, rfl⟩
+  | clearAccumulated => exact ⟨⟨hid, hsw, hn, by simp [step, hc], hpc, he⟩, rfl⟩
+  | runString s => exact runString_rel eng R hR w1 w2 s h'
+  | runAccumulated => exact runAccumulated_rel eng R hR w1 w2 h'
+  | load db => exact load_rel eng R hR w1 w2 db h'
+  | listComponents =>
+      refine ⟨?_, rfl⟩
+      simp only [step, hc]
+      cases hcc : w2.c.compCache with
+      | some l => exact h'
+      | none => exact ⟨hid, hsw, hn, by simp [hc, hR.components _ _ he], hpc, he⟩
+
+theorem observe_rel (eng : Engine E) (R : E → E → Prop) (hR : Respects eng R) (w1 w2 : W E) (h : Rel R w1 w2) :
+    observe eng w1 = observe eng w2 := by
+  obtain ⟨hid, hsw, hn, hc, hpc, he⟩ := h
+  simp only [observe, hid, hsw, hn, hc, hpc]
+  cases w2.c.compCache with
+  | some l => rfl
+  | none => simp [hR.components _ _ he]
+
+theorem trace_rel (eng : Engine E) (R : E → E → Prop) (hR : Respects eng R) (ops : List Op) :
+    ∀ w1 w2 : W E, Rel R w1 w2 → trace eng w1 ops = trace eng w2 ops := by
+  induction ops with
+  | nil => intro _ _ _; rfl
+  | cons op rest ih =>
+      intro w1 w2 h
+      have hs := step_rel eng R hR w1 w2 op h
+      simp only [trace, hs.2, observe_rel eng R hR _ _ hs.1, ih _ _ hs.1]
+
+
+/-- `runString` on an instance with a loaded database overwrites the per-call members: their old value is irrelevant -/
+theorem runString_forgets_pc (eng : Engine E) (w : W E) (pc' : PerCall) (input : String) (h : w.c.dbLoaded = true) :
+    runString eng { w with pc := pc' } input = runString eng w input := by
+  simp [runString, runCore, h, runEnv]
+
+/-- core of C07 for an engine that is reset only up to an indistinguishability relation R -/
+theorem load_rel_fresh (eng : Engine E) (R : E → E → Prop) (hEq : Equivalence R) (hR : Respects eng R)
+    (hU : EngineResetUpTo eng R) (w : W E) (db : String) (h0 : (load eng w db).2 = 0) :
+    Rel R (load eng w db).1 (load eng (freshWith eng (survivors w)) db).1 ∧
+    (load eng (freshWith eng (survivors w)) db).2 = 0 := by
+  rw [load_unfold] at h0
+  rw [load_unfold, load_unfold]
+  -- engines after unload are related
+  have hu : R (eng.unload w.engine) (eng.unload eng.fresh) := hEq.trans (hU _) (hEq.symm (hU _))
+  have hd := hR.readDb _ _ db hu
+  -- after load_db the two instances differ at most in the per-call members
+  have hA : Rel R { (loadDb eng (holdOff w) db).1 with pc := (loadDb eng (holdOff (freshWith eng (survivors w))) db).1.pc }
+                  (loadDb eng (holdOff (freshWith eng (survivors w))) db).1 := by
+    simp only [loadDb, unloadDatabase, holdOff, freshWith, create, survivors]
+    exact ⟨rfl, rfl, rfl, by simp [hd.2], rfl, hd.1⟩
+  have hN : (loadDb eng (holdOff w) db).2 = (loadDb eng (holdOff (freshWith eng (survivors w))) db).2 := by
+    simp only [loadDb, unloadDatabase, holdOff, freshWith, create, survivors]; exact hd.2
+  have hz : (loadDb eng (holdOff w) db).2 = 0 := by
+    by_cases hz : (loadDb eng (holdOff w) db).2 = 0
+    · exact hz
+    · simp [loadTail, hz] at h0
+  have hl : (loadDb eng (holdOff w) db).1.c.dbLoaded = true := by
+    have : (loadDb eng (holdOff w) db).1.c.dbLoaded = ((loadDb eng (holdOff w) db).2 == 0) := by simp [loadDb]
+    rw [this, hz]; rfl
+  have hT : loadTail eng (loadDb eng (holdOff w) db) =
+      runString eng { (loadDb eng (holdOff w) db).1 with pc := (loadDb eng (holdOff (freshWith eng (survivors w))) db).1.pc }
+        (eng.testInput (loadDb eng (holdOff w) db).1.engine) := by
+    simp only [loadTail, hz, beq_self_eq_true, ↓reduceIte]
+    exact (runString_forgets_pc eng _ _ _ hl).symm
+  have hT2 : loadTail eng (loadDb eng (holdOff (freshWith eng (survivors w))) db) =
+      runString eng (loadDb eng (holdOff (freshWith eng (survivors w))) db).1
+        (eng.testInput (loadDb eng (holdOff (freshWith eng (survivors w))) db).1.engine) := by
+    simp only [loadTail, ← hN, hz, beq_self_eq_true, ↓reduceIte]
+  have hti : eng.testInput (loadDb eng (holdOff w) db).1.engine =
+             eng.testInput (loadDb eng (holdOff (freshWith eng (survivors w))) db).1.engine := hR.testInput _ _ hA.2.2.2.2.2
+  have hrun := runString_rel eng R hR _ _ (eng.testInput (loadDb eng (holdOff (freshWith eng (survivors w))) db).1.engine) hA
+  rw [hT, hT2, hti]
+  rw [hT, hti] at h0
+  refine ⟨restore_rel R _ _ _ hrun.1, ?_⟩
+  rw [← hrun.2]; exact h0
+
+/-- C07 at the wrapper level with the weaker engine hypothesis: result codes and all observations of every later call
+    sequence coincide, for every history -/
+theorem load_then_calls_eq_fresh_upto (eng : Engine E) (R : E → E → Prop) (hEq : Equivalence R) (hR : Respects eng R)
+    (hU : EngineResetUpTo eng R) (i : Nat) (hist later : List Op) (db : String)
+    (h0 : (load eng (runOps eng (create eng i) hist) db).2 = 0) :
+    trace eng (load eng (runOps eng (create eng i) hist) db).1 later =
+    trace eng (load eng (freshWith eng (survivors (runOps eng (create eng i) hist))) db).1 later :=
+  trace_rel eng R hR later _ _ (load_rel_fresh eng R hEq hR hU _ db h0).1
+
+/-! ### engines whose state is a valuation of numbered members -/
+
+/-- agreement on the members that can reach a result -/
+def Agree {V : Type} (live : Nat → Bool) (e1 e2 : Nat → V) : Prop := ∀ i, live i = true → e1 i = e2 i
+
+theorem agree_equivalence {V : Type} (live : Nat → Bool) : Equivalence (Agree (V := V) live) where
+  refl := fun _ _ _ => rfl
+  symm := fun h i hi => (h i hi).symm
+  trans := fun h1 h2 i hi => (h1 i hi).trans (h2 i hi)
+
+/-- the reset path as the extracted tables describe it: member i gets its fresh value iff `resetBy i` -/
+def unloadTable {V : Type} (fresh : Nat → V) (resetBy : Nat → Bool) (e : Nat → V) : Nat → V :=
+  fun i => if resetBy i then fresh i else e i
+
+theorem unloadTable_agrees {V : Type} (fresh : Nat → V) (resetBy live : Nat → Bool)
+    (h : ∀ i, live i = true → resetBy i = true) (e : Nat → V) : Agree live (unloadTable fresh resetBy e) fresh := by
+  intro i hi
+  simp [unloadTable, h i hi]
+
 end PhreeqcVerif.Reset
